@@ -9,7 +9,7 @@
    Verdict lines follow the brief:  VIOLATION property=<id> replay=<path> [no-failing-input-found]
                                     KNOWN-FINDING: property=<id> <what>
 """
-import os, sys, re, json, time, glob, hashlib, subprocess, random, fcntl, importlib.util, shutil, signal, threading
+import os, sys, re, json, time, tempfile, glob, hashlib, subprocess, random, fcntl, importlib.util, shutil, signal, threading
 from concurrent.futures import ThreadPoolExecutor
 
 ROOT = os.path.dirname(os.path.dirname(os.path.abspath(__file__)))
@@ -373,12 +373,31 @@ def run_harness(exe, cases_path, out_path, ncases, timeout_per_case=20, env_extr
     guard = 0
     while skip < ncases and guard < 200:
         guard += 1
-        try:
-            p = subprocess.run([exe, cases_path, out_path, str(skip)], stdout=subprocess.PIPE, stderr=subprocess.PIPE,
-                               timeout=max(60, timeout_per_case * (ncases - skip)), env=env)
-            rc = p.returncode; err = p.stderr.decode(errors="replace")
-        except subprocess.TimeoutExpired as e:
-            rc = -999; err = "timeout"
+        # watchdog: the harness appends "S id" when a case starts and "R id ..." when it ends (flushed); a case that
+        # makes no progress for 5 x timeout_per_case (at least 120) seconds is a hang of THAT case (the whole run keeps its global budget)
+        errf = tempfile.TemporaryFile()
+        pr = subprocess.Popen([exe, cases_path, out_path, str(skip)], stdout=subprocess.DEVNULL, stderr=errf, env=env)
+        t0 = time.time(); last_size = -1; last_change = t0
+        budget = max(60, timeout_per_case * (ncases - skip))
+        rc = None
+        while True:
+            try:
+                rc = pr.wait(timeout=0.5)
+                break
+            except subprocess.TimeoutExpired:
+                pass
+            try:
+                sz = os.path.getsize(out_path)
+            except OSError:
+                sz = 0
+            now = time.time()
+            if sz != last_size:
+                last_size = sz; last_change = now
+            if now - last_change > max(5 * timeout_per_case, 120) or now - t0 > budget:
+                pr.kill(); pr.wait(); rc = -999
+                break
+        errf.seek(0); err = errf.read().decode(errors="replace") if rc != -999 else "timeout"
+        errf.close()
         lines = open(out_path).read().split("\n") if os.path.exists(out_path) else []
         started = [l.split()[1] for l in lines if l.startswith("S ")]
         done = [l.split()[1] for l in lines if l.startswith("R ")]
